@@ -92,4 +92,22 @@ AllowedAfter(bytes) ==
                                         ELSE G(IF IsSgr(Head(evs)) THEN SgrStep(y, Head(evs).p) ELSE y, Tail(evs))
                        IN F(G([x EXCEPT !.ps = r[1]], r[2]), Tail(bs))
   IN F(XInit, bytes)
+
+\* every visible character of `bytes` with the set of renditions allowed for it (enumeration oracle;
+\* no narrowing: each character is judged on its own)
+CharsAllowed(bytes) ==
+  LET RECURSIVE F(_, _, _)
+      F(x, bs, acc) ==
+        IF bs = <<>> THEN acc
+        ELSE LET r == VP!Step(x.ps, Head(bs))
+                 RECURSIVE G(_, _, _)
+                 G(y, evs, a) ==
+                   IF evs = <<>> THEN <<y, a>>
+                   ELSE LET e == Head(evs) IN
+                        IF IsVisible(e) /\ CharOf(e) # 127 THEN G(y, Tail(evs), Append(a, [c |-> CharOf(e), S |-> y.S, wild |-> y.wild]))
+                        ELSE IF IsSgr(e) THEN G(SgrStep(y, e.p), Tail(evs), a)
+                        ELSE G(y, Tail(evs), a)
+                 g == G([x EXCEPT !.ps = r[1]], r[2], acc)
+             IN F(g[1], Tail(bs), g[2])
+  IN F(XInit, bytes, <<>>)
 =============================================================================
